@@ -136,8 +136,8 @@ class Ctx:
                 f.write(content)
         return d
 
-    def go_build(self, moddir, out="prog", tags="verif", timeout=900):
-        cmd = ["go", "build"] + (["-tags", tags] if tags else []) + ["-o", out, "."]
+    def go_build(self, moddir, out="prog", tags="verif", timeout=900, all_errors=False):
+        cmd = ["go", "build"] + (["-tags", tags] if tags else []) + (["-gcflags=-e"] if all_errors else []) + ["-o", out, "."]
         return sh(cmd, cwd=moddir, timeout=timeout)
 
     # ---------------------------------------------------------------- TLC
